@@ -21,6 +21,38 @@ CLAIMS = {
         design='4 (C13)', technique='Kani/CBMC bounded model checking of real code; rule function as a symbolic transition table'),
 }
 
+CLAIMS.update({
+    'C12': dict(
+        text='Both space rules are executed symbolically on strings of up to 3 (thorough: 5) characters where every character is ANY '
+             'Unicode scalar value (all mixes of 1-4 byte encodings), against an oracle computed on the character array (map Zs, trim, '
+             'collapse); the real generated Zs table and binary search are in the loop; idempotence asserted. Found two real defects.',
+        note='S-STR fixed-capacity String model; Zs oracle recomputed from UnicodeData 16.0.0; strings longer than the bound are outside the claim.',
+        design='4 (C12)', technique='Kani/CBMC bounded model checking of real code over fully symbolic UTF-8 strings'),
+    'C10': dict(
+        text='Layer A: case_mapping_rule on exactly one character, every scalar value, with the real std case tables (per-loop unwind '
+             'bounds confirmed by unwinding assertions). Layer B: strings of up to 3 (thorough: 4) characters over a 23-witness alphabet '
+             'covering every cased/uncased/titlecase/multi-char/length-changing class, std tables replaced by a model that a third '
+             'harness proves equal to real std on every witness. Oracle: per-character full lowercase mapping, position independent.',
+        note='S-STR, S-CASE stubs; representativeness of the witness alphabet is an argument, the solver-level claim is over the alphabet; '
+             'Layer A covers every scalar value for single characters.',
+        design='4 (C10)', technique='Kani/CBMC bounded model checking of real code; two layers (real tables per character, stubbed tables on strings)'),
+    'C11': dict(
+        text='Layer A: width_mapping_rule on exactly one character, every scalar value, real generated 16.0.0 table and binary search, '
+             'against the <wide>/<narrow> mappings recomputed from UnicodeData.txt. Layer B: strings of up to 3 (thorough: 4) fully '
+             'symbolic characters with the table lookup replaced by the oracle function: per-character, position independent, idempotent.',
+        note='S-STR, S-WIDTH stubs (S-WIDTH is discharged by Layer A); strings longer than the bound are outside the claim.',
+        design='4 (C11)', technique='Kani/CBMC bounded model checking of real code; two layers'),
+    'C14': dict(
+        text='Decomposition decided entirely by the solver: (1) every table predicate of the decision list, run on its real generated '
+             '6.3.0 tables through the public API with the other predicates held constant, equals the RFC 8264 section 9 category '
+             'recomputed from the raw UCD for EVERY u32; (2) for ANY predicate outcomes the decision list is evaluated in the RFC order; '
+             '(3) for ANY outcomes FreeformClass = IdentifierClass with ID_DIS<->FREE_PVAL and char/code-point entry points agree. '
+             'Thorough additionally runs both classes end-to-end on the real tables over 16 chunks partitioning 0..=u32::MAX.',
+        note='HasCompat (NFKC) is not reachable symbolically: replaced by a set that gen.py checks against the real unicode-normalization '
+             'crate on all 249,703 code points assigned in 6.3.0 (native evaluation, not solver-decided). Oracle cross-checked with the IANA CSV.',
+        design='4 (C14)', technique='Kani/CBMC bounded model checking of real code; compositional (per-predicate tables x decision list x class pairing)'),
+})
+
 NOT_YET = 'check not built yet in this session (see DESIGN.md section 4 for the planned harness)'
 NOT_APPLICABLE = {
     'C17': 'the registry CSV parser is regex + BufReader<File>: Kani ICEs while compiling the regex crate (rvalue.rs:1009) and '
